@@ -172,7 +172,7 @@ func runC01(c *wk.Ctx) {
 	for k := 0; k < gen.NKinds; k++ {
 		c.Floor("node-kind:"+gen.Kind(k).String(), 1)
 	}
-	n := c.N(40000, 800000)
+	n := c.N(40000, 6000000)
 	typed := c01Typed(wk.NewRand(c.Seed, "C01-typed", 0))
 	c.Cases(n, func(idx int64, r *wk.Rand) {
 		var sub c01Subject
